@@ -13,6 +13,8 @@ QUANTUM = Fr(1, 215040)  # every vocabulary length is a multiple of this
 def vlen(v):
     if v[0] == "ticks":  # ["ticks", k]: a value lasting exactly k MIDI ticks (288 ticks per whole note): the number 288/k
         return Fr(v[1], 288)
+    if v[0] == "num":  # ["num", n]: the integer n itself as the note value (e.g. 1000: shorter than half a MIDI tick)
+        return Fr(1, v[1])
     base, dots, p, q = v
     return Fr(1) / Fr(base) * (2 - Fr(1, 2 ** dots)) * Fr(q, p)
 
